@@ -67,7 +67,7 @@ CL_PAUSED = "resumed-trial-was-paused-and-is-not-running"
 CL_DEHB_TOP = "dehb-top-of-previous-rung-is-top-set-of-completed-rung"
 CL_DEHB_NONE = "dehb-suggest-returns-work-when-rung-below-has-too-few-survivors"
 CL_DEHB_RAISE = "dehb-suggest-does-not-raise-when-rung-below-has-too-few-survivors"
-CL_DEHB_HEAVY = "dehb-suggest-is-served-under-arbitrary-failure-subsets"
+CL_DEHB_HEAVY = "dehb-suggest-is-served-when-jobs-failed-before-three-succeeded"
 CL_DEHB_FEWBR = "dehb-suggest-is-served-when-fewer-brackets-than-rungs-are-configured"
 CL_SYM_TOP = "min-max-symmetry-get-top-list"
 CL_SYM_BRK = "min-max-symmetry-sync-bracket-and-manager"
@@ -134,7 +134,7 @@ def _watchdog_available():
         return False
 
 
-def _call_with_watchdog(fn, seconds=15.0):
+def _call_with_watchdog(fn, seconds=5.0):
     """a request for work that never returns must not hang the monitor (SIGALRM, main thread only)"""
 
     def handler(signum, frame):
@@ -571,11 +571,18 @@ def _pair_manager(M, ctx, make, systems, W, choices, fails, values, kind, ties=F
     return na
 
 
-def _values(rs, n=64, ties=False):
-    v = (rs.permutation(4 * n)[:n] - 2 * n) / 256.0  # pairwise distinct dyadic values (exact under negation)
-    if ties:
-        v = np.floor(v)
-    return [float(x) for x in v]
+_VALCACHE = {}
+
+
+def _values(seed, n=64, ties=False):
+    """table number ``seed`` (mod 211) of n pairwise distinct dyadic values (exact under negation); ties: floored"""
+    key = (int(seed) % 211, n, ties)
+    if key not in _VALCACHE:
+        v = (np.random.RandomState(key[0]).permutation(4 * n)[:n] - 2 * n) / 256.0
+        if ties:
+            v = np.floor(v)
+        _VALCACHE[key] = [float(x) for x in v]
+    return _VALCACHE[key]
 
 
 def _part_bracket_and_manager(M, tier, rs):
@@ -599,23 +606,23 @@ def _part_bracket_and_manager(M, tier, rs):
     for rungs in brackets:
         J = sum(s for s, _ in rungs)
         for W in (1, 2, 3):
-            seqs = list(itertools.product(range(W), repeat=J)) if W ** J <= (250 if quick else 2500) else [tuple(int(x) for x in rs.randint(0, W, size=J)) for _ in range(120 if quick else 600)]
+            budget = 1000 if quick else 20000
+            seqs = list(itertools.product(range(W), repeat=J)) if W ** J <= (100 if quick else 2500) else [tuple(int(x) for x in rs.randint(0, W, size=J)) for _ in range(60 if quick else 600)]
             for choices in seqs:
-                masks = range(1 << J) if (1 << J) * len(seqs) <= (6000 if quick else 40000) else [int(x) for x in rs.randint(0, 1 << J, size=max(2, (6000 if quick else 40000) // len(seqs)))]
+                masks = range(1 << J) if (1 << J) * len(seqs) <= budget else [int(x) for x in rs.randint(0, 1 << J, size=max(2, budget // len(seqs)))]
                 for fmask in masks:
                     fails = {j for j in range(J) if (fmask >> j) & 1}
                     nrot += 1
-                    vrs = np.random.RandomState(nrot % 997)
                     ctx = {"part": "single bracket", "rungs": rungs, "workers": W, "return_order_choices": list(choices), "failing_jobs": sorted(fails), "value_seed": nrot % 997}
-                    _pair_manager(M, ctx, mk_bracket(rungs), [rungs], W, choices, fails, _values(vrs, 16), "bracket")
+                    _pair_manager(M, ctx, mk_bracket(rungs), [rungs], W, choices, fails, _values(nrot % 997, 16), "bracket")
     M.sample({"part": "single bracket", "rungs": brackets[2], "workers": 2, "note": "all return orders x all failure subsets"})
 
     # --- bracket manager, enumerated: per step (which pending job returns) x (fails or reports)
     enum = [
-        ([[(2, 1), (1, 2)], [(1, 2)]], 2, 6 if quick else 7),
-        ([[(3, 1), (1, 3)]], 2, 5 if quick else 6),
+        ([[(2, 1), (1, 2)], [(1, 2)]], 2, 5 if quick else 7),
+        ([[(3, 1), (1, 3)]], 2, 5 if quick else 7),
         ([[(3, 1), (2, 2), (1, 4)], [(2, 2), (1, 4)], [(1, 4)]], 3, 4 if quick else 5),
-        ([[(2, 1), (1, 3)], [(2, 3)]], 3, 4 if quick else 5),
+        ([[(2, 1), (1, 3)], [(2, 3)]], 3, 3 if quick else 5),
     ]
     nrot = 0
     for systems, W, T in enum:
@@ -625,9 +632,8 @@ def _part_bracket_and_manager(M, tier, rs):
             # translate "the job returning at step i fails" into job numbers by a dry run of the pending list
             fails = _fail_jobs_from_steps(W, choices, failsteps)
             nrot += 1
-            vrs = np.random.RandomState(1000 + nrot % 499)
             ctx = {"part": "bracket manager (enumerated)", "bracket_rungs": systems, "workers": W, "return_order_choices": choices, "failing_jobs": sorted(fails), "value_seed": 1000 + nrot % 499}
-            _pair_manager(M, ctx, mk_manager(systems), systems, W, choices, fails, _values(vrs, 32), "manager")
+            _pair_manager(M, ctx, mk_manager(systems), systems, W, choices, fails, _values(1000 + nrot % 499, 32), "manager")
     M.sample({"part": "bracket manager (enumerated)", "bracket_rungs": enum[0][0], "workers": enum[0][1], "steps": enum[0][2], "note": "every (return choice, fail/report) sequence"})
 
     # --- bracket manager, random: geometric and custom systems
@@ -654,11 +660,11 @@ def _part_bracket_and_manager(M, tier, rs):
             vseed = int(rs.randint(0, 10 ** 6))
             ties = k % 5 == 4
             ctx = {"part": "bracket manager (random)", "bracket_rungs": systems, "workers": W, "return_order_choices": choices, "failing_jobs": sorted(fails), "value_seed": vseed, "ties": ties}
-            _pair_manager(M, ctx, mk_manager(systems), systems, W, choices, fails, _values(np.random.RandomState(vseed), 256, ties), "manager", ties=ties)
+            _pair_manager(M, ctx, mk_manager(systems), systems, W, choices, fails, _values(vseed, 256, ties), "manager", ties=ties)
     M.sample({"part": "bracket manager (random)", "bracket_rungs": big[1], "workers": "1..9", "steps": "20..70/160", "failure_probability": [0.0, 0.1, 0.3, 0.6, 0.9]})
 
     # --- DEHB bracket manager (top_of_previous_rung), enumerated + random; rung systems with >= 3 rungs
-    denum = [([(3, 1), (2, 2), (1, 4)], None, 2, 5 if quick else 6), ([(2, 1), (1, 2)], None, 2, 5 if quick else 6), ([(4, 1), (2, 2), (1, 3)], 2, 3, 4)]
+    denum = [([(3, 1), (2, 2), (1, 4)], None, 2, 5 if quick else 7), ([(2, 1), (1, 2)], None, 2, 4 if quick else 6), ([(4, 1), (2, 2), (1, 3)], 2, 3, 3 if quick else 5)]
     nrot = 0
     for first, nb, W, T in denum:
         systems = _dehb_systems(first, nb)
@@ -667,7 +673,7 @@ def _part_bracket_and_manager(M, tier, rs):
             fails = _fail_jobs_from_steps(W, choices, [c % 2 == 1 for c in combo])
             nrot += 1
             ctx = {"part": "DEHB bracket manager (enumerated)", "rungs_first_bracket": first, "num_brackets": nb, "workers": W, "return_order_choices": choices, "failing_jobs": sorted(fails), "value_seed": 2000 + nrot % 499}
-            _pair_manager(M, ctx, mk_dehb(first, nb), systems, W, choices, fails, _values(np.random.RandomState(2000 + nrot % 499), 32), "dehb")
+            _pair_manager(M, ctx, mk_dehb(first, nb), systems, W, choices, fails, _values(2000 + nrot % 499, 32), "dehb")
     dbig = [([(9, 1), (5, 2), (3, 4), (1, 8)], None), ([(4, 1), (2, 3), (1, 9)], None), ([(9, 1), (3, 3), (1, 9)], 2), ([(6, 1), (4, 2), (3, 3), (2, 4), (1, 5)], 3), ([(5, 2), (2, 4), (1, 8)], 1)]
     for first, nb in dbig:
         systems = _dehb_systems(first, nb)
@@ -680,7 +686,7 @@ def _part_bracket_and_manager(M, tier, rs):
             vseed = int(rs.randint(0, 10 ** 6))
             ties = k % 5 == 4
             ctx = {"part": "DEHB bracket manager (random)", "rungs_first_bracket": first, "num_brackets": nb, "workers": W, "return_order_choices": choices, "failing_jobs": sorted(fails), "value_seed": vseed, "ties": ties}
-            _pair_manager(M, ctx, mk_dehb(first, nb), systems, W, choices, fails, _values(np.random.RandomState(vseed), 256, ties), "dehb", ties=ties)
+            _pair_manager(M, ctx, mk_dehb(first, nb), systems, W, choices, fails, _values(vseed, 256, ties), "dehb", ties=ties)
     M.sample({"part": "DEHB bracket manager (random)", "rungs_first_bracket": dbig[0][0], "workers": "1..7", "checked": "top_of_previous_rung for every position whenever a job above the base rung is handed out"})
 
 
@@ -705,7 +711,7 @@ def _cfg_key(config):
     return tuple(sorted((k, v) for k, v in config.items() if k != MAXATTR))
 
 
-def _run_scheduler(M, ctx, make, systems, mode, sign, W, choices, fails, values, dehb=False, pause_resume=True, use_maxattr=True, constrain=False, heavy=False, fewbr=False):
+def _run_scheduler(M, ctx, make, systems, mode, sign, W, choices, fails, values, dehb=False, pause_resume=True, use_maxattr=True, constrain=False, fewbr=False):
     Trial = _lib()["Trial"]
     sched = make(mode)
     mgr = sched.bracket_manager
@@ -746,6 +752,7 @@ def _run_scheduler(M, ctx, make, systems, mode, sign, W, choices, fails, values,
                     raised = e
                 except _Hang as e:
                     raised = e
+                    M.stat("hangs")
                 if len(jobs) != before + 1:
                     M.check(CL_SERVED, False, ctx, step=step, reason="suggest did not request exactly one job from the bracket manager", raised=repr(raised)[:300], suggestion=repr(sugg)[:200])
                     trace.append(("raise" if raised is not None else "nojob",))
@@ -759,8 +766,8 @@ def _run_scheduler(M, ctx, make, systems, mode, sign, W, choices, fails, values,
                     M.check(CL_DEHB_RAISE, raised is None, ctx, raised=repr(raised)[:300], reason="suggest raises: the top list of the rung below contains failed slots (trial_id None)", **det)
                     if raised is None:
                         M.check(CL_DEHB_NONE, sugg is not None, ctx, reason="suggest answers None (the Tuner stops the experiment) because a slot of the next rung would have to be filled with a failed trial", **det)
-                elif heavy:
-                    M.check(CL_DEHB_HEAVY, raised is None and sugg is not None, ctx, raised=repr(raised)[:300], suggestion=repr(sugg)[:100], **det)
+                elif dehb and nsucc < 3 and stats["failed"] > 0:
+                    M.check(CL_DEHB_HEAVY, raised is None and sugg is not None, ctx, raised=repr(raised)[:300], suggestion=repr(sugg)[:100], reason="suggest raises / answers None: DEHB cannot compose a parent pool of three trials", succeeded_so_far=nsucc, failed_so_far=stats["failed"], **det)
                 else:
                     M.check(CL_SERVED, raised is None and sugg is not None, ctx, raised=repr(raised)[:300], suggestion=repr(sugg)[:100], reason="suggest raised or returned None", **det)
                 if raised is not None:
@@ -871,6 +878,10 @@ def _run_scheduler(M, ctx, make, systems, mode, sign, W, choices, fails, values,
 
 def _pair_scheduler(M, ctx, make, systems, W, choices, fails, values, sym_clause, ties=False, **kw):
     ta, sa = _run_scheduler(M, ctx, make, systems, "min", 1.0, W, choices, fails, values, **kw)
+    if ("raise", "_Hang") in ta:
+        M.stat("twin_run_skipped_after_hang")  # the twin would wait for the watchdog once more
+        M.distinct += 1
+        return sa
     tb, sb = _run_scheduler(M, ctx, make, systems, "max", -1.0, W, choices, fails, values, **kw)
     if not ties:
         _sym_compare(M, sym_clause, ctx, ta, tb)
@@ -912,7 +923,7 @@ def _part_schedulers(M, tier, rs):
         return make
 
     # --- synchronous Hyperband scheduler, enumerated
-    enum = [([[(2, 1), (1, 2)], [(1, 2)]], 2, 5 if quick else 6), ([[(3, 1), (2, 2), (1, 4)], [(2, 2), (1, 4)], [(1, 4)]], 2, 5 if quick else 7), ([[(3, 1), (1, 3)]], 3, 4)]
+    enum = [([[(2, 1), (1, 2)], [(1, 2)]], 2, 5 if quick else 6), ([[(3, 1), (2, 2), (1, 4)], [(2, 2), (1, 4)], [(1, 4)]], 2, 5 if quick else 7), ([[(3, 1), (1, 3)]], 3, 3 if quick else 5)]
     nrot = 0
     for systems, W, T in enum:
         for combo in itertools.product(range(2 * W), repeat=T):
@@ -921,7 +932,7 @@ def _part_schedulers(M, tier, rs):
             nrot += 1
             vseed = 3000 + nrot % 251
             ctx = {"part": "SynchronousHyperbandScheduler (enumerated)", "bracket_rungs": systems, "workers": W, "return_order_choices": choices, "failing_jobs": sorted(fails), "value_seed": vseed, "scheduler_seed": nrot % 7}
-            _pair_scheduler(M, ctx, mk_sync(systems, nrot % 7, use_maxattr=(nrot % 4 != 3)), systems, W, choices, fails, _values(np.random.RandomState(vseed), 2048), CL_SYM_SCHED, use_maxattr=(nrot % 4 != 3))
+            _pair_scheduler(M, ctx, mk_sync(systems, nrot % 7, use_maxattr=(nrot % 4 != 3)), systems, W, choices, fails, _values(vseed, 2048), CL_SYM_SCHED, use_maxattr=(nrot % 4 != 3))
     M.sample({"part": "SynchronousHyperbandScheduler (enumerated)", "bracket_rungs": enum[1][0], "workers": enum[1][1], "steps": enum[1][2], "note": "every (which running job ends, report/fail) sequence, both modes"})
 
     # --- synchronous Hyperband scheduler, random (custom + geometric, incl. SynchronousGeometricHyperbandScheduler)
@@ -946,10 +957,10 @@ def _part_schedulers(M, tier, rs):
             sseed = int(rs.randint(0, 10 ** 4))
             ties = k % 5 == 4
             ctx = {"part": "SynchronousHyperbandScheduler (random)" if geo is None else "SynchronousGeometricHyperbandScheduler (random)", "bracket_rungs": systems, "geometric(grace,max,rf,brackets)": geo, "workers": W, "return_order_choices": choices, "failing_jobs": sorted(fails), "value_seed": vseed, "scheduler_seed": sseed, "ties": ties}
-            _pair_scheduler(M, ctx, mk_sync(systems, sseed, geo=geo), systems, W, choices, fails, _values(np.random.RandomState(vseed), 2048, ties), CL_SYM_SCHED, ties=ties)
+            _pair_scheduler(M, ctx, mk_sync(systems, sseed, geo=geo), systems, W, choices, fails, _values(vseed, 2048, ties), CL_SYM_SCHED, ties=ties)
 
     # --- DEHB scheduler: enumerated (failures constrained), random (constrained), arbitrary failures (own clauses)
-    denum = [([(3, 1), (2, 2), (1, 4)], None, 2, 5 if quick else 6), ([(2, 1), (1, 3)], None, 3, 4)]
+    denum = [([(3, 1), (2, 2), (1, 4)], None, 2, 5 if quick else 7), ([(2, 1), (1, 3)], None, 3, 3 if quick else 5)]
     nrot = 0
     for first, nb, W, T in denum:
         systems = _dehb_systems(first, nb)
@@ -960,7 +971,7 @@ def _part_schedulers(M, tier, rs):
             vseed = 4000 + nrot % 251
             pr = nrot % 3 != 2
             ctx = {"part": "DEHB scheduler (enumerated, failures keep enough survivors)", "rungs_first_bracket": first, "num_brackets": nb, "workers": W, "return_order_choices": choices, "failing_jobs(before constraint)": sorted(fails), "value_seed": vseed, "scheduler_seed": nrot % 5, "support_pause_resume": pr}
-            _pair_scheduler(M, ctx, mk_dehb(first, nb, nrot % 5, pr), systems, W, choices, fails, _values(np.random.RandomState(vseed), 2048), CL_SYM_DEHB, dehb=True, pause_resume=pr, constrain=True)
+            _pair_scheduler(M, ctx, mk_dehb(first, nb, nrot % 5, pr), systems, W, choices, fails, _values(vseed, 2048), CL_SYM_DEHB, dehb=True, pause_resume=pr, constrain=True)
     dcases = [([(9, 1), (5, 2), (3, 4), (1, 8)], None), ([(4, 1), (2, 3), (1, 9)], None), ([(9, 1), (3, 3), (1, 9)], None), ([(6, 1), (4, 2), (3, 3), (2, 4), (1, 5)], None), ([(5, 2), (2, 6)], None)]
     for first, nb in dcases:
         systems = _dehb_systems(first, nb)
@@ -974,7 +985,7 @@ def _part_schedulers(M, tier, rs):
             sseed = int(rs.randint(0, 10 ** 4))
             pr = k % 3 != 2
             ctx = {"part": "DEHB scheduler (random, failures keep enough survivors)", "rungs_first_bracket": first, "num_brackets": nb, "workers": W, "return_order_choices": choices, "failing_jobs(before constraint)": sorted(fails), "value_seed": vseed, "scheduler_seed": sseed, "support_pause_resume": pr}
-            _pair_scheduler(M, ctx, mk_dehb(first, nb, sseed, pr), systems, W, choices, fails, _values(np.random.RandomState(vseed), 2048), CL_SYM_DEHB, dehb=True, pause_resume=pr, constrain=True)
+            _pair_scheduler(M, ctx, mk_dehb(first, nb, sseed, pr), systems, W, choices, fails, _values(vseed, 2048), CL_SYM_DEHB, dehb=True, pause_resume=pr, constrain=True)
     M.sample({"part": "DEHB scheduler (random)", "rungs_first_bracket": dcases[0][0], "workers": "1..6", "support_pause_resume": "both", "note": "promotions in the first bracket checked against the rung just completed; min/max twin runs compare configurations"})
     # fewer brackets per iteration than rungs (allowed by the constructor; brackets=1 is "successive halving")
     fb = [([(8, 1), (4, 2), (2, 4), (1, 8)], 1), ([(8, 1), (4, 2), (2, 4), (1, 8)], 2), ([(9, 1), (3, 3), (1, 9)], 2), ([(4, 1), (2, 3), (1, 9)], 1), ([(6, 1), (4, 2), (3, 3), (2, 4), (1, 5)], 3)]
@@ -985,13 +996,15 @@ def _part_schedulers(M, tier, rs):
         for k in range(3 if quick else 8):
             W = int(rs.choice([1, 2, 4]))
             T = int(rs.randint(40, 90))
-            pfail = float(rs.choice([0.0, 0.2])) if wd else 0.0
+            pfail = float(rs.choice([0.0, 0.2]))
+            if not wd or M.stats.get("hangs", 0) >= 1:
+                pfail = 0.0  # without a watchdog (or after a hang: each costs 5 s) only failure-free schedules
             choices = [int(x) for x in rs.randint(0, 1000, size=T)]
             fails = {int(j) for j in np.nonzero(rs.rand(T + W + 2) < pfail)[0]}
             vseed = int(rs.randint(0, 10 ** 6))
             sseed = int(rs.randint(0, 10 ** 4))
             ctx = {"part": "DEHB scheduler (fewer brackets than rungs, failures keep enough survivors)", "rungs_first_bracket": first, "num_brackets_per_iteration": nb, "workers": W, "return_order_choices": choices, "failing_jobs(before constraint)": sorted(fails), "value_seed": vseed, "scheduler_seed": sseed}
-            _pair_scheduler(M, ctx, mk_dehb(first, nb, sseed, True), systems, W, choices, fails, _values(np.random.RandomState(vseed), 2048), CL_SYM_DEHB, dehb=True, pause_resume=True, constrain=True, fewbr=True)
+            _pair_scheduler(M, ctx, mk_dehb(first, nb, sseed, True), systems, W, choices, fails, _values(vseed, 2048), CL_SYM_DEHB, dehb=True, pause_resume=True, constrain=True, fewbr=True)
     # arbitrary failure subsets (a small fixed catalogue + random): judged by the dehb-... clauses
     hv = [([(3, 1), (2, 2), (1, 4)], None), ([(4, 1), (3, 2), (2, 4)], None), ([(2, 1), (1, 2)], None)]
     for first, nb in hv:
@@ -1002,10 +1015,12 @@ def _part_schedulers(M, tier, rs):
             pfail = float(rs.choice([0.5, 0.8]))
             choices = [int(x) for x in rs.randint(0, 1000, size=T)]
             fails = {int(j) for j in np.nonzero(rs.rand(T + W + 2) < pfail)[0]}
+            if k < 3:  # fixed members of the catalogue: two of three base jobs fail / the very first job fails / all fail
+                W, choices, fails = 1, [0] * 12, [{1, 2}, {0}, set(range(40))][k]
             vseed = int(rs.randint(0, 10 ** 6))
             sseed = int(rs.randint(0, 10 ** 4))
             ctx = {"part": "DEHB scheduler (arbitrary failure subsets)", "rungs_first_bracket": first, "num_brackets": nb, "workers": W, "return_order_choices": choices, "failing_jobs": sorted(fails), "value_seed": vseed, "scheduler_seed": sseed}
-            _pair_scheduler(M, ctx, mk_dehb(first, nb, sseed, True), systems, W, choices, fails, _values(np.random.RandomState(vseed), 2048), CL_SYM_DEHB, dehb=True, pause_resume=True, heavy=True)
+            _pair_scheduler(M, ctx, mk_dehb(first, nb, sseed, True), systems, W, choices, fails, _values(vseed, 2048), CL_SYM_DEHB, dehb=True, pause_resume=True)
 
 
 # ---------------------------------------------------------------------------------------------------------------
@@ -1040,7 +1055,7 @@ def _part_pasha_soft(M, tier, rs):
                 if n == 5 and (sum(perm[i] * (i + 1) for i in range(n)) + sum(gaps)) % 4:
                     continue
                 top = {perm[i]: float(i) + 0.5 for i in range(n)}  # trial perm[i] has rank i in the top rung
-                for eps in (0.0, 0.25, 0.3, 0.5, 0.7, 1.3):
+                for eps in (0.0, 0.3, 0.4, 0.55, 0.7, 1.3):  # never equal to a difference of two values (multiples of 1/4)
                     nscen += 1
                     ctx = {"part": "PASHA soft ranking", "previous_rung(min run)": prev, "top_rung(min run)": top, "epsilon": eps}
                     try:
@@ -1058,7 +1073,7 @@ def _part_pasha_soft(M, tier, rs):
         perm = rs.permutation(n)
         tv = np.sort(rs.permutation(200)[:n]) / 16.0
         top = {int(perm[i]): float(tv[i]) for i in range(n)}
-        eps = float(rs.choice([0.0, 0.5, 1.0, 2.5, 5.0]))
+        eps = float(rs.choice([0.0, 0.53125, 1.03125, 2.53125, 5.03125]))  # values are multiples of 1/16: no difference equals epsilon
         nscen += 1
         ctx = {"part": "PASHA soft ranking", "previous_rung(min run)": prev, "top_rung(min run)": top, "epsilon": eps}
         try:
@@ -1181,7 +1196,7 @@ def _run_async(stype, mode, sign, table, W, rf, brackets, sseed, choices, fails,
 
 def _part_async(M, tier, rs):
     quick = tier == "quick"
-    nper = 4 if quick else 16
+    nper = 8 if quick else 40
     with _QuantileSpy() as spy:
         for stype in ASYNC_TYPES:
             eps_max = 0.0
@@ -1259,5 +1274,5 @@ def monitor_sync(tier="quick", seed=0):
         "bracket managers (sync, DEHB): every (return choice, fail/report) sequence of %s steps for 2-3 workers on 2-3 bracket systems, random schedules 1-9 workers <= %d steps on geometric/custom systems up to 5 rungs, failure probability 0-0.9, with and without ties; "
         "SynchronousHyperbandScheduler / SynchronousGeometricHyperbandScheduler / DEHB scheduler (pause-resume on/off) driven by a miniature Tuner, enumerated <= %d steps + random <= %d steps, both modes, twin runs min/f vs max/-f; "
         "PASHA soft ranking: all permutations of <= %d trials x gap patterns x 6 epsilons; HyperbandScheduler types %s: %d twin runs each; checks per clause: %s"
-    ) % (tier, seed, 5 if tier == "quick" else 6, "4-6" if tier == "quick" else "5-7", 70 if tier == "quick" else 160, 5 if tier == "quick" else 7, 70 if tier == "quick" else 150, 4 if tier == "quick" else 5, "/".join(ASYNC_TYPES), 4 if tier == "quick" else 16, M.counts)
+    ) % (tier, seed, 5 if tier == "quick" else 6, "4-6" if tier == "quick" else "5-7", 70 if tier == "quick" else 160, 5 if tier == "quick" else 7, 70 if tier == "quick" else 150, 4 if tier == "quick" else 5, "/".join(ASYNC_TYPES), 8 if tier == "quick" else 40, M.counts)
     return {"evaluations": int(sum(M.counts.values())), "distinct": int(M.distinct), "clauses": list(CLAUSES), "violations": M.viol, "samples": M.samples[:4], "summary": summary + "; stats: %s" % (M.stats,)}
